@@ -3,6 +3,7 @@
  * four call shapes of attr_path.c are routed (by argument count and type) to the exact models of env/attrpath_env.h;
  * each model asserts that the format string at the call site is the one it models. */
 #include "prelude.h"
+#include "_ghost.h"
 #undef snprintf
 int xv_ap_snp_zd(char *s, size_t n, const char *f, size_t v);
 int xv_ap_snp_s(char *s, size_t n, const char *f, const char *str);
